@@ -17,7 +17,7 @@ PROBES = ["read_after_modification", "stale_cache_opportunity", "nested_modifica
           "data_transform_list", "execute_list", "beacon_gate_list", "repeated_option", "repeated_block", "kwargs_style",
           "calls_style", "reparse", "empty_block", "pair_statement", "same_text_parsed_twice", "escape_at_edge_of_literal",
           "option_value_as_bytes", "caller_touches_returned_dict", "nested_modification_two_levels_down",
-          "topdown_style"]
+          "topdown_style", "constructor_keywords"]
 RULE = ("seeded histories (2-24 ops) on one C2Profile: 'add' ops append a global option or a fully built block (all 11 "
         "block kinds, options by alias/keyword table, header/parameter/strrep pairs, data-transform lists in the six "
         "non-variant list paths, execute and BeaconGate lists, process-inject transform-x86) built either through kwargs "
@@ -720,6 +720,28 @@ def execute(plan: dict) -> Result:
             res.violate(("C11", "history", "exception", type(e).__name__, op[0] + (":" + str(op[1]) if op[0] == "read" else "")),
                         f"op {oi} {_brief([op])} raised {e!r} after {_brief(plan['ops'][:oi])}")
             return res
+    # ---------------- the constructor's keyword form: the whole profile in ONE call (options and blocks as keywords, which can
+    # express distinct names only), read before anything else touches the object
+    names = [x[1] for x in items]
+    if items and len(names) == len(set(names)) and not any(callable(getattr(cp.C2Profile, n, None)) for n in names):
+        try:
+            kw = {}
+            for x in items:
+                kw[x[1]] = x[2] if x[0] == "opt" else build_block(cp, x[1], x[2], "calls")
+            third = cp.C2Profile(**kw)
+            res.probes["constructor_keywords"] += 1
+            got, want = _plain(third.as_dict()), model_dict(items)
+            res.log.log("ctor", sorted(got.items()).__repr__())
+            if got != want:
+                res.violate(("C11", "constructor_keywords", "dict_differs", _diff_kind(got, want)),
+                            f"C2Profile(**keywords).as_dict() for {_brief([['add', x] for x in items])}: {_diff(got, want)}")
+            elif third.as_text() != prof.as_text():
+                res.violate(("C11", "builder_styles_differ", "constructor_keywords"),
+                            f"C2Profile(**keywords) and the call-by-call construction of the same profile print differently after "
+                            f"{_brief(plan['ops'])}")
+        except Exception as e:
+            res.violate(("C11", "constructor_keywords", "exception", type(e).__name__),
+                        f"C2Profile(**keywords) / as_dict() raised {e!r} for {_brief([['add', x] for x in items])}")
     return res
 
 
